@@ -189,10 +189,16 @@ func trunc(s string, n int) string {
 
 // DoSync executes one command with every hook passing through (command granularity)
 // and returns once the whole system is quiescent again. Controller goroutine only.
-func (c *Client) DoSync(args ...string) Result {
+func (c *Client) DoSync(args ...string) Result { return c.do(true, args) }
+
+// DoFiltered executes one command while only the yield sites listed in Sim.sites park
+// (everything else passes through): used when just a few background tasks are scheduled by the dice.
+func (c *Client) DoFiltered(args ...string) Result { return c.do(false, args) }
+
+func (c *Client) do(pass bool, args []string) Result {
 	s := c.sim
 	was := s.passAll.Load()
-	s.passAll.Store(true)
+	s.passAll.Store(pass)
 	defer s.passAll.Store(was)
 	if c.TCP {
 		c.conn.Take()
